@@ -93,6 +93,10 @@ def run(ck: Checker, prog: Program, tier: str):
     from . import c04
     with ck.borrow(c04, "C01.R4+"):
         ck.guard(c04._r4, ck, prog, "C04.R4")
+    # the curve is reported at the centre frequencies it was evaluated at: the result containers keep their vectors as given
+    from .c15 import check_stored_as_given
+    ck.guard(check_stored_as_given, ck, prog, "C01.R6", ["HvsrCurve", "HvsrTraditional"], ("frequency", "amplitude"),
+             "curve values would be paired with other frequencies / lose precision")
     # the FFT length belongs to the definition of the curve: it comes from this call's records and the caller's request, never from
     # what an earlier call on other records left behind in the caller's settings
     from . import c09
